@@ -12,7 +12,16 @@ VARIABLE st
 TInit == TLCSet(1, 0) /\ l = 1 /\ st = Sets0
 B(x) == IF x THEN 1 ELSE 0
 
-ObsOK(e, s) ==
+\* large sets are observed through Len, IsEmpty, membership probes and the lengths of Slice / Append
+BigObsOK(e, s) ==
+  \A x \in Names :
+    LET o == e.sets[x]
+    IN  /\ o[1] = B(s[x].nil)
+        /\ o[2] = Cardinality(s[x].m) /\ o[3] = B(s[x].m = {})
+        /\ \A i \in DOMAIN o[4] : o[4][i][2] = B(o[4][i][1] \in s[x].m)
+        /\ o[5] = Cardinality(s[x].m) /\ o[6] = Cardinality(s[x].m) + 1
+
+SmallObsOK(e, s) ==
   /\ \A x \in Names :
        LET o == e.sets[x]
        IN  /\ o[1] = B(s[x].nil)
@@ -20,6 +29,8 @@ ObsOK(e, s) ==
            /\ o[4] = SortSet(s[x].m)                 \* membership (Has over the probe universe)
            /\ o[5] = SortSet(s[x].m)                 \* Slice: each member exactly once
            /\ o[6] = <<99>> \o SortSet(s[x].m)       \* Append(<<99>>): prefix kept, each member once
+ObsOK(e, s) ==
+  /\ (IF e.big = 1 THEN BigObsOK(e, s) ELSE SmallObsOK(e, s))
   /\ \A i \in DOMAIN e.preds :
        LET p == e.preds[i] a == s[p[1]] b == s[p[2]]
        IN  p[3] = B(Intersects(a, b)) /\ p[4] = B(IsSubset(a, b)) /\ p[5] = B(Equals(a, b))
@@ -34,6 +45,7 @@ TStep ==
          /\ CASE e.op = "new"       -> st' = Sets0
               [] e.op = "mk"        -> st' = MNew(st, e.x, e.items)
               [] e.op = "add"       -> st' = MAdd(st, e.x, e.items)
+              [] e.op = "addrange"  -> st' = MAddRange(st, e.x, e.lo, e.hi)
               [] e.op = "addall"    -> st' = MAddAll(st, e.x, e.y)
               [] e.op = "remove"    -> st' = MRemove(st, e.x, e.items)
               [] e.op = "removeall" -> st' = MRemoveAll(st, e.x, e.y)
